@@ -182,4 +182,57 @@ def populate_samples_full : Prop :=
       out.map (·.t) = unionTs src ∧ (∀ x ∈ out, ∃ xs ∈ src, x ∈ xs) ∧
       ((o.series.any fun cs => cs.1 == l) = src.any fun xs => !xs.isEmpty)
 
+/-- `populate_samples_full` as literally stated is FALSE: its second clause asks every written sample to
+    BE a visible source sample, but when two sources overlap in time the compacting merger reads the
+    overlapping chunks through `ChainedSeriesMerge`, whose `AtHistogram` resets a non-gauge counter-reset
+    hint to "unknown" whenever the previous sample came from another input (C19 `Chain.atSample`, C12).
+    Two blocks with one series `{a="1"}`: histograms with hint 1 at t = 10, 20 and at t = 15; the block
+    written holds the three timestamps, all with hint 0 — none of them is literally a source sample.
+    This is intended behaviour of the code (hints must not survive re-ordering), so the statement, not
+    the code, is wrong; `populate_samples_nohint_full` is the repaired statement. -/
+theorem populate_samples_full_witness : ¬ populate_samples_full := by
+  intro h
+  have hwf : ∀ b ∈ [(⟨0, 100, [⟨[("a", "1")], [Chunk.ofSamples [⟨10, .hist, 5⟩, ⟨20, .hist, 5⟩]], []⟩]⟩ : Block),
+      ⟨0, 100, [⟨[("a", "1")], [Chunk.ofSamples [⟨15, .hist, 9⟩]], []⟩]⟩],
+      (∀ s ∈ b.series, SeriesWF s) ∧ Asc (b.series.map (·.labels)) := by
+    intro b hb
+    simp only [List.mem_cons, List.not_mem_nil, or_false] at hb
+    rcases hb with rfl | rfl
+    · refine ⟨?_, by simp [Asc]⟩
+      intro s hs
+      simp only [List.mem_singleton] at hs
+      subst hs
+      refine ⟨by decide, ?_, by decide, by decide, by decide, ?_⟩
+      · unfold Intervals.AllI64 Intervals.I64; decide
+      · unfold Intervals.I64; decide
+    · refine ⟨?_, by simp [Asc]⟩
+      intro s hs
+      simp only [List.mem_singleton] at hs
+      subst hs
+      refine ⟨by decide, ?_, by decide, by decide, by decide, ?_⟩
+      · unfold Intervals.AllI64 Intervals.I64; decide
+      · unfold Intervals.I64; decide
+  have := (h _ 1 100
+    ⟨[([("a", "1")], [⟨10, 20, [⟨10, .hist, 4⟩, ⟨15, .hist, 8⟩, ⟨20, .hist, 4⟩]⟩])], ⟨1, 1, 3, 0, 3⟩⟩
+    hwf (by unfold RangeOK; decide) (by rfl) [("a", "1")]).2.1 ⟨10, .hist, 4⟩ (by decide)
+  revert this
+  decide
+
+/-- a sample whose value `Chain.atSample` never alters: a float, a gauge histogram (hint 3) or a
+    histogram with hint "unknown" (0) -/
+def NoHint (x : Sample) : Prop := x.kind = .float ∨ x.payload % 4 = 3 ∨ x.payload % 4 = 0
+
+/-- The repaired headline clause for several sources: as `populate_samples_full`, for sources whose
+    samples carry no counter-reset hint the chain could reset and whose chunks are time-ordered per series. -/
+def populate_samples_nohint_full : Prop :=
+  ∀ (blocks : List Block) (mint maxt : Int) (o : Output),
+    (∀ b ∈ blocks, (∀ s ∈ b.series, SeriesWF s ∧ s.chunks.Pairwise (fun a b => a.maxt < b.mint) ∧
+      ∀ c ∈ s.chunks, ∀ x ∈ c.samples, NoHint x) ∧ Asc (b.series.map (·.labels))) → RangeOK mint maxt →
+    populate .compact blocks mint maxt = .ok o →
+    ∀ l : Labels,
+      let src := (blocks.flatMap fun b => b.series.filter fun s => s.labels == l).map (visible mint maxt)
+      let out := (o.series.filter fun cs => cs.1 == l).flatMap csSamples
+      out.map (·.t) = unionTs src ∧ (∀ x ∈ out, ∃ xs ∈ src, x ∈ xs) ∧
+      ((o.series.any fun cs => cs.1 == l) = src.any fun xs => !xs.isEmpty)
+
 end Prom.C07
